@@ -245,7 +245,7 @@ def gen_cases(tier, seed):
             t = dict({'kind': kind, 'size': rng.choice([5, 20])}, **extra)
             cases.append({'seed': rng.randrange(1 << 30), 'min_part': 8, 'family': 'manager-cancel-during-submit', 'entry': 'shutdown_cancel', 'cancel_msg': 'bye',
                           'config': dict(multipart_threshold=16, multipart_chunksize=8, io_chunksize=4, max_request_concurrency=2), 'transfers': [t],
-                          'plan': {'gate': {'match': '/s3:', 'phase': 'before', 'count': 1, 'after_cancel_begin': True}},
+                          'plan': {'gate': {'match': '/cb:on_queued', 'phase': 'before', 'count': 1, 'after_cancel_begin': True, 'after_cancel_applied': True}},
                           'yield': {'p': 0.0, 'window': {'file': 'manager.py', 'lineno': line[1], 'name': f'manager.py:{line[1]}:{line[2]}', 'nth': 0,
                                                          'how': 'manager_cancel', 'target': 0, 'wait': 0.5}}})
     # several user threads submit to one manager at overlapping times (one of them preempted inside the manager's bookkeeping
@@ -358,9 +358,11 @@ def evaluate(obs):
                     viol.append(oracles.V(f'{x.label}: one of {len(obs.xfers)} transfers submitted from different threads, none of which had begun when {how} '
                                           f'cancelled the manager\'s transfers, yet it went on ({len(reqs)} request(s)) and reports {x.outcome}',
                                           **oracles.base_mech(obs, x), entry=how, sym='unstarted-transfer-escaped-cancel', ntransfers=len(obs.xfers)))
-        if fam == 'manager-cancel-during-submit' and gate.get('after_cancel_begin') and x.future is not None:
-            # the transfer had been handed to the manager and its first request (if any was begun) was held back until the manager-wide
-            # cancel had begun: it was unfinished then, so it reports the cancellation
+        if fam == 'manager-cancel-during-submit' and gate.get('after_cancel_applied') and x.future is not None \
+                and [e for e in obs.events if e['kind'] == 'park' and e['key'].startswith(x.label + '/cb:on_queued')]:
+            # the transfer had been handed to the manager and was held in front of its on_queued step - no request begun - until the
+            # cancelling call had gone through its cancel pass (it was seen waiting for the transfers): it reports the cancellation.
+            # (Held at a request instead, a single-request transfer may rightly succeed: a cancel racing the final request.)
             stats['held_at_cancel'] = stats.get('held_at_cancel', 0) + 1
             if x.outcome == 'success':
                 viol.append(oracles.V(f'{x.label}: the manager was cancelled by another thread while the call that submitted this transfer had not returned yet; '
